@@ -177,6 +177,21 @@ var c10Endpoints = []c10Endpoint{
 	{"GET", "/v1/strategy", "", true, false},
 	{"GET", "/v1/nope", "", false, false},
 	{"GET", "/", "", false, false},
+	// (new entries go at the end: the IP product refers to endpoints by index)
+	// every other method on the protected paths: the token is asked for whatever the method -
+	// a preflight-style OPTIONS, a HEAD, methods the endpoint does not implement
+	{"OPTIONS", "/v1/metrics", "", true, false},
+	{"OPTIONS", "/v1/backends", "", true, false},
+	{"OPTIONS", "/v1/backends/add", "", true, false},
+	{"OPTIONS", "/v1/backends/remove", "", true, false},
+	{"OPTIONS", "/v1/strategy", "", true, false},
+	{"HEAD", "/v1/metrics", "", true, false},
+	{"HEAD", "/v1/backends", "", true, false},
+	{"POST", "/v1/metrics", `{}`, true, false},
+	{"PUT", "/v1/backends/add", `{"name":"evil","address":"http://127.0.0.1:1","weight":1}`, true, true},
+	{"PATCH", "/v1/strategy", `{"strategy":"ip_hash"}`, true, true},
+	{"TRACE", "/v1/backends", "", true, false},
+	{"get", "/v1/backends", "", true, false},
 }
 
 func (e c10Endpoint) request(extra ...wire.HeaderLine) *wire.Request {
